@@ -2,6 +2,7 @@ package internal
 
 import (
 	"strings"
+	"sync"
 
 	"github.com/zeromicro/go-zero/core/discov"
 	"github.com/zeromicro/go-zero/core/logx"
@@ -21,7 +22,13 @@ func (b *discovBuilder) Build(target resolver.Target, cc resolver.ClientConn, _ 
 		return nil, err
 	}
 
+	// update is called by Build and by the subscriber's watch goroutine: reading the values
+	// and handing them to cc must not interleave, or an older list can be published last
+	var lock sync.Mutex
 	update := func() {
+		lock.Lock()
+		defer lock.Unlock()
+
 		vals := subset(sub.Values(), subsetSize)
 		addrs := make([]resolver.Address, 0, len(vals))
 		for _, val := range vals {
